@@ -79,6 +79,29 @@ Theorem C19_sparse_vertex : forall a b c rest,
 Proof. exact tri_interp_vertex. Qed.
 Print Assumptions C19_sparse_range.
 
+(* the weights are the barycentric coordinates of the query point (they reproduce its location), so the value is the
+   height at (x, y) of the plane through the triangle's three stored vertices; in particular a height field that is
+   affine on a triangle is reproduced exactly everywhere in it, and all three vertices return their stored height *)
+Theorem C19_sparse_point : forall a b c x y w0 w1 w2, bary a b c x y = Some (w0, w1, w2) ->
+  (0 <= w0 /\ 0 <= w1 /\ 0 <= w2 /\ w0 + w1 + w2 == 1) /\
+  x == w0 * vx a + w1 * vx b + w2 * vx c /\ y == w0 * vy a + w1 * vy b + w2 * vy c.
+Proof. intros a b c x y w0 w1 w2 H. split; [exact (bary_weights _ _ _ _ _ _ _ _ H)|exact (bary_point _ _ _ _ _ _ _ _ H)]. Qed.
+Theorem C19_sparse_affine : forall a b c rest p q r x y,
+  vz a == p * vx a + q * vy a + r -> vz b == p * vx b + q * vy b + r -> vz c == p * vx c + q * vy c + r ->
+  bary a b c x y <> None -> tri_interp ((a, b, c) :: rest) x y == p * x + q * y + r.
+Proof. exact tri_interp_affine. Qed.
+Theorem C19_sparse_vertex_b : forall a b c rest,
+  ~ det2 (vx b - vx a) (vy b - vy a) (vx c - vx a) (vy c - vy a) == 0 ->
+  tri_interp ((a, b, c) :: rest) (vx b) (vy b) == vz b.
+Proof. exact tri_interp_vertex_b. Qed.
+Theorem C19_sparse_vertex_c : forall a b c rest,
+  ~ det2 (vx b - vx a) (vy b - vy a) (vx c - vx a) (vy c - vy a) == 0 ->
+  tri_interp ((a, b, c) :: rest) (vx c) (vy c) == vz c.
+Proof. exact tri_interp_vertex_c. Qed.
+Print Assumptions C19_sparse_point.
+Print Assumptions C19_sparse_affine.
+Print Assumptions C19_sparse_vertex_c.
+
 (* sample_path as a whole.  Raster maps: starts at the pixel of the rounded start, ends at the pixel of the rounded end,
    in-order selection of the pixel line, own height everywhere *)
 Theorem C19_raster_path : forall width height scale interp tol x1 y1 x2 y2, 0 < tol ->
